@@ -51,9 +51,9 @@ PROPS = {
                  'transaction (so the stored epoch is never smaller than a stored result\'s epochs); nothing is left open; open() creates the schema '
                  'inside one BEGIN EXCLUSIVE .. END transaction, closes the connection when that fails, deletes a database only on a version mismatch '
                  'with recreation allowed, and never issues a PRAGMA that switches journaling or synchronous writes off; buildStarted succeeds only if BEGIN EXCLUSIVE '
-                 'did; buildComplete commits with END on the open connection and then closes it',
+                 'did; buildComplete commits with END on the open connection and then closes it; setRuleResult executes no statement besides the prepared insert (no END / BEGIN: the whole build stays one transaction)',
         'not_decided': ['the enumeration of kill points, journal recovery and fsync (SQLite atomic commit is assumed)',
-                        'setRuleResult / key table contents (U-db units)', 'that continued builds return clean results (lemma L1)'],
+                        'key table contents (U-db units)', 'that continued builds return clean results (lemma L1)'],
     },
     'C05': {
         'units': ['engine', 'engine_build', 'engine_cancel', 'serialqueue', 'lanequeue', 'engine_loop'],
@@ -100,16 +100,17 @@ PROPS = {
                         'the cycle-breaking heuristics (breakCycle)', 'liveness: that a real cycle always stalls the loop; termination of the search (finite simple paths)'],
     },
     'C08': {
-        'units': ['extcmd', 'fileinfo', 'extcmd_run'],
+        'units': ['extcmd', 'fileinfo', 'extcmd_run', 'extcmd_result', 'shelldeps_dispatch'],
         'design_ref': 'DESIGN.md section 4, C08',
         'claim': 'kernel only: ExternalCommand::isResultValid declares a stored result valid only if every non-virtual output still matches what the '
                  'command produced (existence only for mutated outputs) and never for a non-successful stored result; FileInfo ==/!= and '
-                 'getInfoForPath (shared with C13) decide "has this file changed"',
+                 'getInfoForPath (shared with C13) decide "has this file changed"; computeCommandResult records one info per output in output order (the epoch for a command-timestamp node, the all-zero record for a virtual node, the current file info otherwise; at most 4 outputs named), '
+                 'canUpdateIfNewerWithResult allows an update without running only with allow-modified-outputs and every recorded output existing; the deps-file dispatch of the shell command (see C11)',
         'not_decided': ['on-disk equivalence with a clean build (everything the title says)', 'the per-key-kind rule dispatch in lookupRule (closures)',
                         'FileInputNodeTask / ProducedNodeTask / MissingCommandTask'],
     },
     'C10': {
-        'units': ['extcmd', 'subprocess', 'extcmd_run'],
+        'units': ['extcmd', 'subprocess', 'extcmd_run', 'extcmd_result'],
         'design_ref': 'DESIGN.md section 4, C10',
         'claim': 'every stored command result that is not a success is invalid (retried next build); only a successful stored result counts as a prior '
                  'result (so a skipped / propagated-failure value can never short-cut execution); cleanUpExecutedProcess (POSIX) reports success only for '
@@ -118,7 +119,7 @@ PROPS = {
                         'parallel timing', 'the Windows branch of Subprocess.cpp (not compiled here)'],
     },
     'C09': {
-        'units': ['signature', 'engine', 'extcmd', 'sigsplit', 'sigsplit_shell'],
+        'units': ['signature', 'engine', 'extcmd', 'extcmd_result', 'sigsplit', 'sigsplit_shell'],
         'design_ref': 'DESIGN.md section 4, C09',
         'claim': 'ShellCommand::getSignature feeds every argument, both halves of every environment entry, every deps path and the three scalar '
                  'settings exactly once (or only the explicit signature when one is given), never hands out the null signature, caches what it '
@@ -128,14 +129,16 @@ PROPS = {
                         'chained without delimiters (candidate finding F9, ExternalCommand::getSignature is not under contract)', 'the null-build claim end to end'],
     },
     'C11': {
-        'units': ['mkdeps', 'depinfo', 'shelldeps', 'engine_loop'],
+        'units': ['mkdeps', 'depinfo', 'shelldeps', 'shelldeps_dispatch', 'engine_loop'],
         'design_ref': 'DESIGN.md section 4, C11',
         'claim': 'Makefile-deps lexer/parser: consumed/produced byte accounting of lexWord, every reported word is a '
                  'non-empty span of the buffer, rule start/end pairing also on error paths, isWordChar table; the shell command\'s depfile callbacks record '
                  'exactly one engine dependency per reported input -- the UNESCAPED word, as is when absolute, otherwise joined to the command\'s working '
                  'directory and made absolute -- and report the same path to the delegate; dependency-info input records are recorded under their path, '
-                 'missing/output records never',
-        'not_decided': ['that a later change to P re-executes the command (paper lemma L1)', 'file reading'],
+                 'missing/output records never; processDiscoveredDependencies: every deps file of the command (at most two named) is read - a relative path against the working directory, made absolute - '
+                 'and handed with its own contents to the processor of the declared style, `makefile` with all rules honoured and only `makefile-ignoring-subsequent-outputs` stopping after the first rule; '
+                 'a missing style, an unreadable file or a file its processor rejects fails the command',
+        'not_decided': ['that a later change to P re-executes the command (paper lemma L1)', 'the contents of the file system (a ghost answer per path)'],
     },
     'C12': {
         'units': ['dirtree', 'dirfilter'],
@@ -200,12 +203,12 @@ PROPS = {
         'not_decided': ['agreement of variable evaluation with Ninja itself (needs Ninja as oracle)', 'the composition of the evalString steps over a whole string', 'that the parser accepts exactly the Ninja grammar (only termination, token consumption and lexer mode are decided)'],
     },
     'C18': {
-        'units': ['ninja_valid', 'ninjadeps'],
+        'units': ['ninja_valid', 'ninjadeps', 'ninja_task'],
         'design_ref': 'DESIGN.md section 4, C18',
         'claim': 'validity predicates only: a Ninja command result is valid only if it was a success, the command hash is unchanged (generator commands '
                  'excepted: "a changed command line re-runs its command") and every output exists with unchanged file information; an input is valid exactly '
                  'when it was recorded as existing, still exists and is unchanged; a select-composite result exactly when successful with an unchanged hash; '
-                 'the depfile callback records the unescaped word normalised against the working directory (once, or not at all when normalisation fails)',
+                 'the depfile callback records the unescaped word normalised against the working directory (once, or not at all when normalisation fails); the command task: an input value that is neither an existing file nor a successful command makes the command skip (a missing one is reported once), a usable input never un-skips it and its time stamp is folded into the newest input time, update-if-newer is never switched back on, the prior command hash is taken only from a successful stored result, and a command is brought up to date WITHOUT running only if every output exists and is not older (strict mode: strictly newer) than the newest input',
         'not_decided': ['convergence to the clean-build state, null rebuilds, order-only handling, restat/generator/pool semantics, failure '
                         'propagation (closures over the build context)', 'decoding of the stored value (assumed pure)'],
     },
